@@ -1,6 +1,7 @@
 import PV.C05.Spec
 import PV.C05.Lemmas
 import PV.C05.Global
+import PV.C05.PlainGaps
 /-
   C05 — the token stream tiles the source: property theorems.
 
@@ -176,5 +177,28 @@ theorem full_lexer_tiles {cfg : Cfg} (hs : cfg.up.Sane) (hf : cfg.fullLexer = tr
     simpa [Tiles, softKw, softKwGo_cspans] using this
 
 example : ∃ out, lex ⟨true, asciiParams⟩ .module 0 exSrc = some out ∧ out.fin = .eof := by decide
+
+/-! ### the default lexer: gaps are whitespace, comments and joins -/
+
+/-- In the default configuration a text that lexes without error is tiled by its tokens: what lies in
+    front of the first token (behind a byte-order mark), between two consecutive tokens and after the last
+    token is accepted by the gap scanner `gapPlain`: blanks, tabs, form feeds, backslash-newline joins,
+    comments running from `#` to the end of their line, and line breaks.  (Which line breaks may be
+    gaps — only those inside brackets or of blank lines — is `newline_only_at_depth0` together with
+    `full_lexer_tiles` and `PV.C10.full_lexer_filter`: every line break in a gap is a
+    `NonLogicalNewline` token of the full lexer.) -/
+theorem gaps_are_trivia {cfg : Cfg} (hs : cfg.up.Sane) (hf : cfg.fullLexer = false) {mode : Mode} {k : Nat}
+    {src : List Nat} {out : LexOut} (h : lex cfg mode k src = some out) (hok : out.fin = .eof) :
+    Tiles GP src out.toks := by
+  unfold lex at h
+  cases hr : lexRaw cfg k src with
+  | none => simp [hr] at h
+  | some o =>
+    simp [hr] at h; subst h
+    have := lexRaw_tiles_plain hs hf hr hok
+    simpa [Tiles, softKw, softKwGo_cspans] using this
+
+example : gapPlain false [32, 35, 32, 99, 10, 32, 32, 92, 13, 10, 9] = true := by decide
+example : gapPlain false [32, 120] = false := by decide
 
 end PV.C05
